@@ -51,6 +51,8 @@ def _graphs():
     G.append(("map", m, [("M", [ABSENT, [2, 3]])]))
     ov = ("ds", "ov", {"params": [("opt", "A")], "dispatch": ("optkey", "D"), "overloads": [("x", ("ds", "implx", {"params": [("opt", "B", ("val", 0))], "effects": ["ex"]}))], "effects": ["eo"]})
     G.append(("overload", ov, [("A", [1, 2]), B2, ("D", [ABSENT, "x"])]))
+    le = ("ds", "le", {"params": [inner], "effects": ["log:audit", "elog"]})
+    G.append(("log-effect", le, [A3]))
     return G
 
 
@@ -118,6 +120,7 @@ class Rig:
         self.capture = Capture()
         self.logger = pylogging.getLogger("labmc_fixture")
         self.requests = []
+        self.logeffects = {n: sum(1 for e in p["effects"] if isinstance(e, str) and e.startswith("log:")) for n, p in self.names.items()}
 
     def run(self, o, c, e, l):
         """One evaluation under the given switch setting. Returns (obs, body log, effect log, records, requests)."""
@@ -187,7 +190,7 @@ def owner(names, eff):
     return None
 
 
-def judge(rig, label, mode, o, c, e, l, got, log, records, requests, twin, twin_log, before, after):
+def judge(rig, label, mode, o, c, e, l, got, log, records, requests, twin, twin_log, before, after, earlier_on=False):
     out = []
     d = same_obs(got, twin)
     if d:
@@ -210,9 +213,13 @@ def judge(rig, label, mode, o, c, e, l, got, log, records, requests, twin, twin_
                 continue
             nb = sum(1 for k, x in log if k == "body" and x == n)
             for eff in p["effects"]:
+                if eff.startswith("log:"):
+                    continue
                 ne = effects.count(eff)
                 if ne != nb:
                     out.append(f"effect-count: {eff} ran {ne}x for {nb} body execution(s) of {n}")
+    if c == "on" and mode == "mem" and got.ok and earlier_on and bodies:
+        out.append(f"stored-value-not-reused: the same dataset options were evaluated before with the cache on, yet bodies ran again: {bodies}")
     if l != "on":
         if records:
             out.append(f"logging-disabled-but-emitted: {records}")
@@ -220,10 +227,12 @@ def judge(rig, label, mode, o, c, e, l, got, log, records, requests, twin, twin_
             out.append(f"logging-disabled-by-context-but-request-reached-previous-handler: {requests}")
     elif got.ok:
         computed = len([1 for k, n in log if k == "body"])
+        # a LogEffect attached to a dataset issues one more request per computation of that dataset (effects on)
+        extra = sum(rig.logeffects.get(n, 0) for k, n in log if k == "body") if e == "on" else 0
         # datasets whose selected implementation is an overload compute without running their own body
         if not any(p["overloads"] for p in rig.names.values()):
-            if len(requests) != computed:
-                out.append(f"log-request-count: {len(requests)} log requests for {computed} dataset computations")
+            if len(requests) != computed + extra:
+                out.append(f"log-request-count: {len(requests)} log requests for {computed} dataset computations (+{extra} log effects)")
         if len(records) != len(requests):
             out.append(f"log-emission-count: {len(records)} records emitted for {len(requests)} log requests")
         if any(lv != pylogging.INFO for lv, _, _ in records) or any(lv != pylogging.INFO for lv, _ in requests):
@@ -237,14 +246,17 @@ def run_case(case):
         _, gi, mode, hist = case
         label, term, spec = _graphs()[gi]
         rig = Rig(term, mode)
+        done_on = []
         for n, (o, c, e, l) in enumerate(hist):
             before = CacheSystem.canon(rig.system.snapshot())
             got, log, records, requests = rig.run(o, c, e, l)
             after = CacheSystem.canon(rig.system.snapshot())
             rig.wt.reset_log()
             twin = observe(rig.wt, lambda: rig.tobj.evaluate(copy.deepcopy(o)))
-            for v in judge(rig, label, mode, o, c, e, l, got, log, records, requests, twin, list(rig.wt.log), before, after):
+            for v in judge(rig, label, mode, o, c, e, l, got, log, records, requests, twin, list(rig.wt.log), before, after, earlier_on=(o in done_on)):
                 res["failures"].append(_fail(gi, label, mode, hist[: n + 1], v))
+            if c == "on" and got.ok:
+                done_on.append(o)
         res["states"] = 1
         res["transitions"] = len(hist)
         return res
@@ -258,13 +270,13 @@ def run_case(case):
         twins.append((observe(rig.wt, lambda: rig.tobj.evaluate(copy.deepcopy(o))), list(rig.wt.log)))
     actions = [(j, c, e, l) for j in range(len(dicts)) for c in CACHE for e in EFFECTS for l in LOGGING]
     init = rig.system.snapshot()
-    seen = {CacheSystem.canon(init)}
-    frontier = [(init, [])]
+    seen = {(CacheSystem.canon(init), frozenset())}
+    frontier = [(init, [], frozenset())]
     reported = set()
     d = 0
     while frontier and d < depth:
         nxt = []
-        for snap, hist in frontier:
+        for snap, hist, done_on in frontier:
             for ai, (j, c, e, l) in enumerate(actions):
                 rig.system.restore(snap)
                 before = CacheSystem.canon(snap)
@@ -274,15 +286,16 @@ def run_case(case):
                 res["transitions"] += 1
                 if (c, e, l) != ("on", "on", "on"):
                     res["nontrivial"] += 1
-                for v in judge(rig, label, mode, dicts[j], c, e, l, got, log, records, requests, twins[j][0], twins[j][1], before, after):
+                for v in judge(rig, label, mode, dicts[j], c, e, l, got, log, records, requests, twins[j][0], twins[j][1], before, after, earlier_on=(j in done_on)):
                     kind = v.split(":")[0]
                     if kind not in reported:
                         reported.add(kind)
                         h = [(dicts[actions[a][0]],) + tuple(actions[a][1:]) for a in hist + [ai]]
                         res["failures"].append(_fail(gi, label, mode, h, v))
-                if after not in seen:
-                    seen.add(after)
-                    nxt.append((ns, hist + [ai]))
+                done2 = frozenset(done_on | ({j} if (c == "on" and got.ok) else set()))
+                if (after, done2) not in seen:
+                    seen.add((after, done2))
+                    nxt.append((ns, hist + [ai], done2))
         frontier = nxt
         d += 1
     res["states"] = len(seen)
